@@ -23,9 +23,12 @@ Reset == /\ Is("Reset")
          /\ ff' = NoFF /\ rq' = NoRq /\ pc' = "none" /\ mode' = "initial" /\ tx' = NoTx
          /\ pub' = NoPub /\ res' = NoRes /\ last' = NoLast /\ g' = G0
 
+(* the largest per-input starting rate of the set (0: none) *)
+SeqMax(q) == IF Len(q) = 0 THEN 0 ELSE CHOOSE m \in {q[i] : i \in 1..Len(q)} : \A j \in 1..Len(q) : q[j] <= m
+
 ReqOf(t) == [budget |-> t.budget, weight |-> t.weight, maxrate |-> t.maxrate, relay |-> t.relay,
              totalin |-> t.totalin, reqout |-> t.reqout, dust |-> t.dust, deadline |-> t.deadline,
-             sopt |-> t.sopt, est |-> t.est]
+             sopt |-> t.sopt, est |-> t.est, prevmax |-> SeqMax(t.prevs)]
 
 TNext ==
   \/ Reset
@@ -34,7 +37,7 @@ TNext ==
   \/ Is("Bump")  /\ \/ BumpFF(T.ct, T.cur)
                     \/ T.ct = ConfAt(T.height) /\ Bump(T.height, T.cur)
   \/ Is("Req")   /\ Request(ReqOf(T))
-  \/ Is("Retry") /\ Retry /\ rq' = ReqOf(T)
+  \/ Is("Retry") /\ Regroup(ReqOf(T))
   \/ Is("Init")  /\ T.ct = ConfAt(T.height) /\ InitFF(T.height, T.maxallowed, T.delta)
   \/ Is("Create") /\ BeginCreate
   \/ Is("Check") /\ Check(T.ans)
